@@ -75,6 +75,10 @@ def _regex_literal_hook(st, lit, term):
             st.assume(f if pattern.fullmatch(lit) is not None else z3.Not(f))
 
 
+def is_intlike_(v):
+    return sym.is_intlike(v)
+
+
 class SymMethod:
     __slots__ = ('obj', 'name')
 
@@ -766,6 +770,25 @@ class Library:
         raise OutOfSubset('int(float)')
 
     def dec_to_int(self, v):
+        """A5: int() of a decimal: the scaled coefficient (exact while it has at most 28 digits), or the integer value."""
+        from spec import wire
+        st = self.st
+        if 'scaled_by' in v.info:
+            t, k = v.info['of'], v.info['scaled_by']
+            if st.must(I(k) == -wire.dec_exp(t)):
+                if st.branch(z3.And(wire.dec_coeff(t) > -10 ** 28, wire.dec_coeff(t) < 10 ** 28), 'decimal:within-context-precision'):
+                    return SInt(wire.dec_coeff(t))
+                return SInt(st.fresh_int('rounded_coefficient'))
+            raise OutOfSubset('int(Decimal.scaleb(k)) with k other than -exponent')
+        if v.t is not None:
+            wire.dec_facts(st, v.t)
+            if not st.branch(wire.dec_finite(v.t), 'decimal:finite'):
+                if st.branch(st.fresh_bool('nan'), 'decimal:nan-or-infinity'):
+                    raise Raised(ValueError, ('cannot convert NaN to integer',))
+                raise Raised(OverflowError, ('cannot convert Infinity to integer',))
+            if st.branch(wire.dec_exp(v.t) >= 0, 'decimal:integral'):
+                return SInt(wire.dec_intval(v.t))
+            return SInt(st.fresh_int('truncated_decimal'))
         raise OutOfSubset('int(Decimal)')
 
     def dec_new(self, args):
@@ -796,6 +819,46 @@ class Library:
                         raise OutOfSubset('decimal scale outside 0..255')
                     return SOpaque('decimal', wire.decimal_of(x.info['unscaled'], k))
         raise OutOfSubset('Decimal arithmetic')
+
+    # -- Decimal values
+    def attr_decimal(self, obj, name, default, has_default):
+        return SymMethod(obj, name)
+
+    def meth_decimal(self, obj, name, args, kwargs):
+        from spec import wire
+        st = self.st
+        if name == 'as_tuple' and not args and obj.t is not None:
+            wire.dec_facts(st, obj.t)
+            return SOpaque('dectuple', obj.t)
+        if name == 'scaleb' and len(args) == 1 and is_intlike_(args[0]):
+            k = args[0]
+            if 'unscaled' in obj.info and obj.info.get('scale') == 0:
+                # Decimal(n).scaleb(-k): the decimal with unscaled value n and k places (exact: n < 10^28)
+                return SOpaque('decimal', wire.decimal_of(obj.info['unscaled'], z3.simplify(-I(k))),
+                               {'unscaled_of': obj.info['unscaled'], 'places': z3.simplify(-I(k))})
+            if obj.t is not None:
+                return SOpaque('decimal', None, {'of': obj.t, 'scaled_by': k})
+        raise OutOfSubset('Decimal.%s' % name)
+
+    def attr_dectuple(self, obj, name, default, has_default):
+        from spec import wire
+        st = self.st
+        if name == 'exponent':
+            if st.branch(wire.dec_finite(obj.t), 'decimal:finite'):
+                return SInt(wire.dec_exp(obj.t))
+            return 'F'          # 'n' / 'N' / 'F': a str for NaN and infinities
+        raise OutOfSubset('DecimalTuple.%s' % name)
+
+    def dec_eq(self, a, b):
+        """value == Decimal(raw).scaleb(-k) for a finite value with exponent -k: same coefficient (A5)."""
+        from spec import wire
+        for x, y in ((a, b), (b, a)):
+            if isinstance(x, SOpaque) and x.kind == 'decimal' and x.t is not None and 'unscaled_of' not in x.info \
+                    and isinstance(y, SOpaque) and 'unscaled_of' in y.info:
+                t = x.t
+                if self.st.must(z3.And(wire.dec_finite(t), wire.dec_exp(t) == -y.info['places'])):
+                    return mk_bool(wire.dec_coeff(t) == y.info['unscaled_of'])
+        raise OutOfSubset('Decimal equality')
 
     def dt_fromtimestamp(self, args, kwargs):
         from spec import wire
